@@ -311,7 +311,8 @@ def main(argv=None):
             nshards = min(a.jobs, s.max_shards)
             per = 0
         else:
-            nshards = max(1, min(a.jobs, s.max_shards, n_total // 20 or 1))
+            mps = s.min_per_shard or (20 if n_total >= 2000 else 5)
+            nshards = max(1, min(a.jobs, s.max_shards, n_total // mps or 1))
             per = -(-n_total // nshards)
         plan[s.name] = (nshards, per)
         for sh in range(nshards):
